@@ -29,7 +29,8 @@ CONFIG = {
     'thorough': {'shards': 32, 'cases': 40000, 'timeout': 5400, 'floor': 300000},
 }
 REQUIRED = ['requests', 'terms_equal', 'call_counters_checked', 'rejections_agreed', 'twin_requests', 'with_values_requests',
-            'batchhandler_batches', 'meta_nodes_evaluated', 'named_edges_evaluated', 'wide_nodes_evaluated']
+            'batchhandler_batches', 'meta_nodes_evaluated', 'named_edges_evaluated', 'wide_nodes_evaluated',
+            'graphs_with_named_edges_added_after_creation']
 
 
 def gen_cases(ctx):
@@ -173,6 +174,12 @@ def _depends_on_disc(S, n, seen=None):
     return any(_depends_on_disc(S, q, seen) for q in list(nd['pos']) + list(nd['kw'].values()))
 
 
+def fp_int(case):
+    # stable integer derived from the case content (same case => same build variant on replay)
+    import zlib
+    return zlib.crc32(repr([(nd['name'], nd['opid']) for nd in case['spec']]).encode()) + len(case['requests'])
+
+
 def run_case(ctx, case):
     import elfi
     import elfi.client
@@ -180,8 +187,12 @@ def run_case(ctx, case):
     from elfi.store import OutputPool
     spec = case['spec']
     names = [nd['name'] for nd in spec]
+    late = None
+    if any(nd['kw'] for nd in spec) and fp_int(case) % 3 == 0:
+        late = fp_int(case) % 100003
+        ctx.event('graphs_with_named_edges_added_after_creation')
     try:
-        m = sg.build(spec)
+        m = sg.build(spec, late_kw_seed=late)
     except Exception as e:  # building a valid spec must work
         raise Violation('build-failed', 'building the model raised %s: %s' % (type(e).__name__, e))
     wholegraph = sg.graph_has_stochastic_observed(spec)
